@@ -117,7 +117,7 @@ _T3 = ["t=2", "u=t", "t=a2", "a1=0", "a2=a1", "b1=a2", "ak=t", "a:=0", "a1n=b",
        "inc(t)"]
 _Q12 = ["t=2", "u=t", "t=a2", "a1=0", "b1=a2", "ak=t", "a:=0", "a1n=b", "La=0",
         "Lb=a", "Lfull", "Ltmp", "Lred", "Lifc", "Lifelse", "if(t)u", "if(n)t|u",
-        "if(k)a1", "inc(t)", "fill(a)", "d:=1", "Ld*=", "Lw=e", "Lb=w"]
+        "if(k)a1", "inc(t)", "fill(a)", "d:=1", "d1=e2", "Ld*=", "Lw=e", "Lb=w"]
 _Q3 =["u=t", "t=a2", "a1=0", "b1=a2", "La=0", "Ltmp", "if(n)t|u"]
 
 #: per tier: program length -> statement alphabet (quick is a subset of
